@@ -83,30 +83,37 @@ def popPairs (s : St) : Nat → R (List (Int × Int) × St)
     let (rest, s) ← popPairs s n
     pure ((a, b) :: rest, s)
 
+/-- one DELTAP exception `(point_ix, b)` of `op_deltap` on the point `p` (cached projection state `g`):
+`c = ((b as u32 & 0xF0) >> 4) + bias; if ppem as u32 == c { b = (b & 0xF) - 8; if b >= 0 { b += 1 };
+b *= 1 << (6 - delta_shift); … move_point }` with the backward-compatibility condition
+`!did_iup && ((is_composite && fv.y != 0) || touched_y)`.  `none` = the checked multiply traps. -/
+def deltapOne (g : Proj) (ppem bias shift : Int) (bc iup composite : Bool) (b : Int) (p : MPt) : Option MPt :=
+  if wrapU32 ppem = deltaPpem b bias then
+    (deltaStep b shift).map fun d =>
+      if bc then (if ¬ iup ∧ ((composite ∧ g.fv.y ≠ 0) ∨ p.ty) then movePoint g bc iup p d else p)
+      else movePoint g bc iup p d
+  else some p
+
+/-- one DELTAC exception on the cvt value `v`: `cvt_val + F26Dot6::from_bits(b)`. -/
+def deltacOne (ppem bias shift : Int) (b v : Int) : Option Int :=
+  if wrapU32 ppem = deltaPpem b bias then (deltaStep b shift).map fun d => wadd v d else some v
+
 def deltapLoop (s : St) (bias : Int) : List (Int × Int) → R St
   | [] => pure s
   | (a, b) :: rest => do
     let i ← asIndex a
     let p ← getZ s s.zp0 i
-    let s ←
-      if wrapU32 s.ppem = deltaPpem b bias then do
-        let d ← ofOpt (deltaStep b s.deltaShift)
-        if s.bc then
-          if ¬ iupd s ∧ ((s.composite ∧ s.fv.y ≠ 0) ∨ p.ty) then moveAt s s.zp0 i d else pure s
-        else moveAt s s.zp0 i d
-      else pure s
-    deltapLoop s bias rest
+    let g ← proj s
+    let m ← ofOpt (deltapOne g s.ppem bias s.deltaShift s.bc (iupd s) s.composite b (mpt p))
+    deltapLoop (setZ s s.zp0 i (withM p m)) bias rest
 
 def deltacLoop (s : St) (bias : Int) : List (Int × Int) → R St
   | [] => pure s
   | (a, b) :: rest => do
     let i ← asIndex a
-    let s ←
-      if wrapU32 s.ppem = deltaPpem b bias then do
-        let d ← ofOpt (deltaStep b s.deltaShift)
-        let v ← getCvt s i
-        setCvt s i (wadd v d)
-      else pure s
+    let v ← getCvt s i
+    let v' ← ofOpt (deltacOne s.ppem bias s.deltaShift b v)
+    let s ← setCvt s i v'
     deltacLoop s bias rest
 
 /-- `op_getinfo`: `smooth`, `vlcd`, `sym`, `grayCt` = `target.is_smooth()`, `is_vertical_lcd()`,
